@@ -93,23 +93,25 @@ def run_seq(check, ctx, cipher_self, MODELS):
                      expected="refused with ValueError once the sequence number is "
                               "exhausted (RFC 9180 5.2 IncrementSeq), never wrapping" if should_fail
                      else "the last sequence number 2^96-2 is still usable")
-    # ---- N: unseal advances on success only ------------------------------------------
-    res, rec, fn, _ = _run_method(repo, "unseal", cipher_self(_encrypt=False, _sequence=SEQ),
-                                  {"ciphertext": B(40), "auth_data": None}, MODELS)
-    rets = res.returns()
-    ok = bool(rets) and all(o.snap and o.snap.get("_sequence") == SEQ + 1 for o in rets)
-    check.ob("N", "N|hpke.unseal.advance", ok, mod.path, fn.lineno,
-             extracted="sequence at the normal exits of unseal(): %s (entered with %d)" % (
-                 [o.snap.get("_sequence") if o.snap else None for o in rets], SEQ),
-             expected="a successful unseal() advances the sequence number by one")
-    rais = [o for o in res.raises() if o.snap]
-    bad = [o for o in rais if o.snap.get("_sequence") != SEQ]
-    check.ob("N", "N|hpke.unseal.failure-keeps-sequence", bool(rais) and not bad, mod.path,
-             getattr(bad[0].node, "lineno", fn.lineno) if bad else fn.lineno,
-             extracted="sequence at the exceptional exits of unseal(): %s (entered with %d)" % (
-                 sorted(set(repr(o.snap.get("_sequence")) for o in rais)), SEQ),
-             expected="a rejected message leaves the sequence number unchanged, so "
-                      "that the next genuine message still opens (RFC 9180 5.2)")
+    # ---- N: unseal advances on success only, from every starting sequence number (the first message included) ----
+    for SEQ_ in (0, 1, 2, SEQ, (1 << 32) - 1):
+        res, rec, fn, _ = _run_method(repo, "unseal", cipher_self(_encrypt=False, _sequence=SEQ_),
+                                      {"ciphertext": B(40), "auth_data": None}, MODELS)
+        rets = res.returns()
+        ok = bool(rets) and all(o.snap and o.snap.get("_sequence") == SEQ_ + 1 for o in rets)
+        sfx = "" if SEQ_ == SEQ else "|seq=%d" % SEQ_
+        check.ob("N", "N|hpke.unseal.advance" + sfx, ok, mod.path, fn.lineno,
+                 extracted="sequence at the normal exits of unseal(): %s (entered with %d)" % (
+                     [o.snap.get("_sequence") if o.snap else None for o in rets], SEQ_),
+                 expected="a successful unseal() advances the sequence number by one")
+        rais = [o for o in res.raises() if o.snap]
+        bad = [o for o in rais if o.snap.get("_sequence") != SEQ_]
+        check.ob("N", "N|hpke.unseal.failure-keeps-sequence" + sfx, bool(rais) and not bad, mod.path,
+                 getattr(bad[0].node, "lineno", fn.lineno) if bad else fn.lineno,
+                 extracted="sequence at the exceptional exits of unseal(): %s (entered with %d)" % (
+                     sorted(set(repr(o.snap.get("_sequence")) for o in rais)), SEQ_),
+                 expected="a rejected message leaves the sequence number unchanged, so "
+                          "that the next genuine message still opens (RFC 9180 5.2)")
     badc = [o.exc for o in res.raises() if "ValueError" not in Interp(repo).exc_mro(o.exc, mod)]
     check.ob("X1", "X1|hpke.unseal", not badc, mod.path, fn.lineno,
              extracted="exception classes of unseal(): %s" % sorted(set(o.exc for o in res.raises())),
